@@ -20,6 +20,7 @@ import (
 	"fmt"
 	"os"
 	"path"
+	"reflect"
 	"regexp"
 	"sort"
 	"strings"
@@ -698,7 +699,7 @@ func runImpl(c *caseT) (outcome, any) {
 	rec := &scankit.Rec{}
 	var exs []filesystem.Extractor
 	for _, e := range c.Exs {
-		exs = append(exs, &scankit.Ex{N: e.name, Rec: rec, Req: reqFn(e.req)})
+		exs = append(exs, &scankit.Ex{N: e.name, Rec: rec, Req: reqFn(e.req), EmitFinding: true})
 	}
 	m := memfs.New(c.root)
 	m.NoReadDirFile = c.Opts.NoRDF
@@ -756,6 +757,18 @@ func runImpl(c *caseT) (outcome, any) {
 		out.statuses = append(out.statuses, s.Name+"="+s.Status.String())
 	}
 	out.status = res.Status.String()
+	// everything an invocation returns is inventory: the finding each Extract call emits next to its
+	// package must be in the result exactly once per call
+	gotF := map[string]int{}
+	for _, f := range res.Inventory.Findings {
+		if f.Adv != nil && f.Adv.ID != nil {
+			gotF[f.Adv.ID.Reference+"|"+f.Extra]++
+		}
+	}
+	wantF := multiset(out.calls)
+	if !reflect.DeepEqual(gotF, wantF) && !(len(gotF) == 0 && len(wantF) == 0) {
+		return out, fmt.Sprintf("findings returned by the Extract calls %v, findings in the result %v", wantF, gotF)
+	}
 	nAfter := len(rec.Of("after-extract"))
 	if nAfter != len(out.calls) {
 		return out, fmt.Sprintf("AfterExtractorRun called %d times for %d Extract calls", nAfter, len(out.calls))
@@ -807,6 +820,9 @@ func check(c *caseT) (kind, detail string, nontrivial bool) {
 	m.run()
 	out, harnessErr := runImpl(c)
 	if harnessErr != nil {
+		if strings.HasPrefix(fmt.Sprint(harnessErr), "findings returned") {
+			return "extractor-findings-not-in-result", fmt.Sprint(harnessErr), false
+		}
 		if strings.HasPrefix(fmt.Sprint(harnessErr), "second scan") {
 			return "second-scan-with-same-configuration-differs", fmt.Sprint(harnessErr), false
 		}
@@ -979,7 +995,10 @@ func main() {
 					}
 					continue
 				}
-				for _, es := range exSets {
+				for ei, es := range exSets {
+					if n == 4 && !r.Thorough() && (ei == 0 || ei == 3) {
+						continue // quick: the largest trees with the two extractor sets that subsume the others
+					}
 					c := &caseT{Tree: ts, Opts: o, Exs: es, ExS: exStr(es), root: root, again: n <= 3}
 					kind, detail, nt := check(c)
 					r.Evals.Add(1)
@@ -1004,7 +1023,7 @@ func main() {
 	r.Set("bound", map[string]any{"max_nodes_completed": completedNodes, "max_option_deviations": maxDev, "extractor_sets": len(exSets)})
 	r.Assume("reference dispatch model (this file, ~200 lines) states git's .gitignore semantics for the 5-pattern alphabet and the skip rules of the property text")
 	r.Assume("regular-expression and glob *matching* are taken from the same libraries the implementation uses; only the dispatch logic is under test")
-	r.Finish(fmt.Sprintf("every tree with <=%d labelled nodes (names a, a.d, b.txt, 'd e', -x, .gitignore(6 bodies incl. a negation), pkg.json; dirs, files of size 0/1/5, exec bit, symlinks to file/dir/dangling, named pipe) x every option vector with <=%d deviations from the defaults (skip list, regex, glob, gitignore, requested paths incl. dir+file and '.', sub-dir cut-off, max size 1/5, symlinks, absolute paths, ReadDirFile on/off, virtual root vs. root with a host path and absolute skip/request paths) x %d extractor sets; Scanner.Scan over memfs vs reference dispatch model (trees <=3 nodes: scanned twice with the same configuration and plugin instances, second scan must equal the first); plus two virtual roots with different content (the tree and the tree without its top-level .gitignore / with other sizes, both orders) under every option vector with <=2 deviations, each root judged by the model on its own; plus one directory of W entries for every W<=%d and 2^k-1,2^k,2^k+1,1.5*2^k up to %d x 3 placements x 5 directory-listing behaviours (ReadDir, ReadDirFile full batches, short batches of 1/3/100); non-trivial = some option active and >=1 extraction expected", maxNodes, maxDev, len(exSets), ev.Pick(r, 40, 300), ev.Pick(r, 1024, 4096)), completedNodes == maxNodes)
+	r.Finish(fmt.Sprintf("every tree with <=%d labelled nodes (names a, a.d, b.txt, 'd e', -x, .gitignore(6 bodies incl. a negation), pkg.json; dirs, files of size 0/1/5, exec bit, symlinks to file/dir/dangling, named pipe) x every option vector with <=%d deviations from the defaults (skip list, regex, glob, gitignore, requested paths incl. dir+file and '.', sub-dir cut-off, max size 1/5, symlinks, absolute paths, ReadDirFile on/off, virtual root vs. root with a host path and absolute skip/request paths) x %d extractor sets (quick: 2 of them on 4-node trees); Scanner.Scan over memfs vs reference dispatch model (trees <=3 nodes: scanned twice with the same configuration and plugin instances, second scan must equal the first); plus two virtual roots with different content (the tree and the tree without its top-level .gitignore / with other sizes, both orders) under every option vector with <=2 deviations, each root judged by the model on its own; plus one directory of W entries for every W<=%d and 2^k-1,2^k,2^k+1,1.5*2^k up to %d x 3 placements x 5 directory-listing behaviours (ReadDir, ReadDirFile full batches, short batches of 1/3/100); non-trivial = some option active and >=1 extraction expected", maxNodes, maxDev, len(exSets), ev.Pick(r, 40, 300), ev.Pick(r, 1024, 4096)), completedNodes == maxNodes)
 }
 
 func replay(r *ev.Run, p string) {
